@@ -64,7 +64,7 @@ class Run:
         if finding is not None and finding in self.known:
             self.known_hits.setdefault(finding, what)
             return
-        REPLAYS.mkdir(exist_ok=True)
+        REPLAYS.mkdir(parents=True, exist_ok=True)
         d = REPLAYS / self.prop
         d.mkdir(exist_ok=True)
         path = d / f"case-{len(self.violations) + 1:03d}.json"
@@ -95,7 +95,7 @@ class Run:
             "wall_s": round(time.time() - self.t0, 2),
             "violations": len(self.violations),
         }
-        EVIDENCE.mkdir(exist_ok=True)
+        EVIDENCE.mkdir(parents=True, exist_ok=True)
         (EVIDENCE / f"{self.prop}.json").write_text(json.dumps(ev, indent=1, default=str) + "\n")
         for fid, what in sorted(self.known_hits.items()):
             print(f"KNOWN-FINDING: property={self.prop} {fid}: {what}")
